@@ -3,7 +3,7 @@ import sys
 
 from .. import engine, gen
 from ..core import Rng
-from .base import PropBase, gen_run
+from .base import PropBase, gen_run, gen_project_mode
 from .history import run_history, history_candidates, describe_history
 from ..engine import Outcome
 
@@ -56,7 +56,9 @@ class C22(PropBase):
             hist.append({"run": gen_run(rng, execs=(e,))})
             if rng.chance(0.4):
                 hist.append({"run": gen_run(rng, execs=("thread", "process", "j1"))})
-        return {"tree": tree, "units": proj["units"], "langs": proj["langs"], "opts": opts, "history": hist}
+        scn = {"tree": tree, "units": proj["units"], "langs": proj["langs"], "opts": opts, "history": hist}
+        scn["project"] = gen_project_mode(rng, proj["units"], 0.2)
+        return scn
 
     def execute(self, scn, wd):
         return run_history(scn, wd, Outcome(), self.ID, wp_only=True)
